@@ -45,12 +45,14 @@ fn input(state: &mut u64, mode: u64, t: usize) -> f64 {
                 1.0 + r as f64 / 256.0
             }
         }
-        _ => 1.0 + ((t % 16) as f64),           // strictly periodic saw-tooth (period 16)
+        4 => 1.0 + ((t % 16) as f64),           // strictly periodic saw-tooth (period 16)
+        5 => 1.0 + t as f64 / 64.0,             // ever rising: a new all-time (and window) maximum on every step
+        _ => 1.0e7 - t as f64 / 64.0,           // ever falling (stays positive for the run lengths used)
     }
 }
 
 fn measure(spec: &Spec, l: usize, seed: u64, out: &mut TrialOut, cell: &str) {
-    let mode = seed % 5;
+    let mode = seed % 7;
     out.key(mix(hash_str(&spec.show()), mix(l as u64, mode)));
     out.count(&format!("input_mode_{}", mode), 1);
     let mut st = seed | 1;
@@ -90,7 +92,7 @@ fn measure(spec: &Spec, l: usize, seed: u64, out: &mut TrialOut, cell: &str) {
             "live-bytes-grow-with-length",
             "any",
             format!(
-                "{} at f64: live heap bytes owned by the view: {} after L={} updates, {} after 4L, {} after 16L (last() = {:?}); input mode {} (0 noise, 1 constant, 2 three levels, 3 flat stretches, 4 saw-tooth), seed {}",
+                "{} at f64: live heap bytes owned by the view: {} after L={} updates, {} after 4L, {} after 16L (last() = {:?}); input mode {} (0 noise, 1 constant, 2 three levels, 3 flat stretches, 4 saw-tooth, 5 rising ramp, 6 falling ramp), seed {}",
                 spec.show(),
                 bytes[0],
                 l,
@@ -118,7 +120,7 @@ fn measure(spec: &Spec, l: usize, seed: u64, out: &mut TrialOut, cell: &str) {
 fn plan_sizes(cfg: &Cfg) -> (u64, u64, u64) {
     let nn = ns(cfg).len() as u64;
     let u = all_unary(3).len() as u64;
-    (nn * u * 2, nn * 8 * 3, cfg.tier.pick(300, 3000))
+    (nn * u * 3, nn * 8 * 3, cfg.tier.pick(400, 3000))
 }
 
 impl Monitor for C18 {
@@ -140,8 +142,11 @@ impl Monitor for C18 {
             let k = catalogue::bump_n(all_unary(n)[((idx / nn) % all_unary(3).len() as u64) as usize], n);
             let n_eff = k.n().unwrap_or(1);
             let l = base_l.max(8 * (n_eff + 12));
+            // O(N^2)-per-update views at large N get the minimum length
+            let l = if matches!(k, Kind::Net(_)) && n_eff > 64 { 8 * (n_eff + 12) } else { l };
             // thorough: every 7th single view gets the long run (16L = 4e6)
-            let l = if cfg.tier == Tier::Thorough && idx % 7 == 0 { 250_000 } else { l };
+            let cheap = n_eff <= 16 && !matches!(k, Kind::Net(_));
+            let l = if cfg.tier == Tier::Thorough && idx % 7 == 0 && cheap { 250_000 } else { l };
             measure(&Spec::leaf(k), l, rng.next(), out, &format!("view/{}", k.name()));
         } else if idx < a + b {
             let j = idx - a;
@@ -180,7 +185,7 @@ impl Monitor for C18 {
         names
     }
     fn rule(&self) -> String {
-        "trial = one view (every kind x N grid), PFE/EFT with each moving average, or a random 2-3 level chain / combinator, driven by one of five input modes (noise, constant, three levels, long flat stretches, saw-tooth); the harness' counting global allocator meters the bytes the instance owns after L, 4L and 16L updates (L >= 4096 and >= 8 windows; long runs to 16L = 4e6 in thorough); violation iff bytes(4L) > bytes(L) or bytes(16L) > bytes(L) (exact integer comparison). distinct = distinct (tree, L); non-trivial = both comparisons made".into()
+        "trial = one view (every kind x N grid), PFE/EFT with each moving average, or a random 2-3 level chain / combinator, driven by one of seven input modes (noise, constant, three levels, long flat stretches, saw-tooth, ever-rising ramp, ever-falling ramp); the harness' counting global allocator meters the bytes the instance owns after L, 4L and 16L updates (L >= 4096 and >= 8 windows; long runs to 16L = 4e6 in thorough); violation iff bytes(4L) > bytes(L) or bytes(16L) > bytes(L) (exact integer comparison). distinct = distinct (tree, L); non-trivial = both comparisons made".into()
     }
     fn assumptions(&self) -> Vec<String> {
         vec![
